@@ -114,6 +114,28 @@ func (w *World) CheckBalances(n *Node, addrs []string) {
 				break
 			}
 		}
+		// with a single tip the answer is also the wallet's exact balance over ALL confirmed vertices: recomputed from the
+		// live and the checkpointed vertices themselves (not from the stored funds)
+		if len(sums) == 1 && a != w.GenIss && len(before.Stored) > 0 && !n.Tainted[a] {
+			fin, fout := Flows(a, func(yield func(*accountant.Vertex)) {
+				for _, l := range before.Live {
+					yield(&l.V)
+				}
+				for _, sv := range before.Stored {
+					yield(sv)
+				}
+			})
+			sin, sout := Flows(a, func(yield func(*accountant.Vertex)) {
+				for _, sv := range before.Stored {
+					yield(sv)
+				}
+			})
+			full := new(big.Int).Sub(fin, fout)
+			if sin.Cmp(sout) >= 0 && sums[0].Valid && full.Cmp(sums[0].Sum) != 0 {
+				w.Violate("C06", "single-tip-balance-differs-from-all-confirmed-vertices", fmt.Sprintf("node %s: the single-tip balance of %s is %s (checkpoint funds + live flows), the exact balance over all live and checkpointed vertices is %s", n.Name, w.NameOf(a), sums[0].Sum, full))
+			}
+			w.Res.Count("c06_full_reference_comparisons", 1)
+		}
 		key := fmt.Sprintf("tips%d/distinct%d/invalid=%v/funds=%v", bucket(len(sums)), len(valid), anyInvalid, hasFunds(before, a))
 		if len(sums) > 1 || anyInvalid || hasFunds(before, a) || appearsAsBoth(before, a) {
 			w.NontrivFor("C06", key+fmt.Sprintf("/both=%v", appearsAsBoth(before, a)))
